@@ -251,6 +251,8 @@ def run(ctx):
     part = core.fan_out(ctx, _rows_chunk, chunks)
     longs = long_rows(rates, accums)
     part.merge(core.fan_out(ctx, _long_chunk, core.split(longs, 32)))
+    from .. import calcseq                 # pylint: disable=import-outside-toplevel
+    part.merge(calcseq.explore(ctx, ['move_dist_t3', 'rate_t3']))
     cnt = part.counters
     states = cnt.get("states", 0) + cnt.get("long_moves", 0)
     coverage = {
@@ -278,6 +280,7 @@ def run(ctx):
         "model_conformance_checks": cnt.get("model_conformance_checks", 0),
         "alphabet_sizes": {"rate": len(rates), "accel": len(accels), "jerk": len(jerks),
                            "accum": len(accums)},
+        "call_histories_siblings_then_twice": cnt.get("calc_histories", 0),
         "exhaustive": True,
     }
     assumptions = [
@@ -289,6 +292,9 @@ def run(ctx):
 
 
 def replay(case):
+    if case.get("kind") == "calc_history":
+        from .. import calcseq             # pylint: disable=import-outside-toplevel
+        return calcseq.replay(case)
     rate, accel, jerk = case["rate"], case["accel"], case["jerk"]
     ticks, accum = case["ticks"], case["accum"]
     config = tuple(case["config"]) if case.get("config") else None
